@@ -26,6 +26,9 @@ pub enum Slot<'b> {
     S { s: BString<'b>, t: String },
     Bx { s: bumpalo::boxed::Box<'b, [El<0>]>, t: Box<[El<1>]> },
     Canary { ptr: usize, len: usize, id: u32 },
+    /// a slice obtained from into_bump_slice(_mut): must stay valid and unchanged for the arena's life
+    LeakedE { s: &'b [El<0>], t: &'static [El<1>] },
+    LeakedB { s: &'b [u8], t: &'static [u8] },
     Dead,
 }
 
@@ -157,6 +160,9 @@ pub trait Pair: 'static {
     type A: Elem + Clone;
     type B: Elem + Clone;
     fn wrap<'b>(v: VSlot<'b, Self::A, Self::B>) -> Slot<'b>;
+    fn leaked<'b>(_s: &'b [Self::A], _t: &'static [Self::B]) -> After<'b> {
+        After::Dead
+    }
 }
 pub struct PE;
 impl Pair for PE {
@@ -165,6 +171,9 @@ impl Pair for PE {
     fn wrap<'b>(v: VSlot<'b, El<0>, El<1>>) -> Slot<'b> {
         Slot::E(v)
     }
+    fn leaked<'b>(s: &'b [El<0>], t: &'static [El<1>]) -> After<'b> {
+        After::Replace(Slot::LeakedE { s, t })
+    }
 }
 pub struct PB;
 impl Pair for PB {
@@ -172,6 +181,9 @@ impl Pair for PB {
     type B = u8;
     fn wrap<'b>(v: VSlot<'b, u8, u8>) -> Slot<'b> {
         Slot::B(v)
+    }
+    fn leaked<'b>(s: &'b [u8], t: &'static [u8]) -> After<'b> {
+        After::Replace(Slot::LeakedB { s, t })
     }
 }
 pub struct PZ;
@@ -604,12 +616,25 @@ pub fn vec_consume<'b, P: Pair>(ctx: &mut Ctx, bump: &'b Bump, v: VSlot<'b, P::A
             ctx.st(V::Conversions);
             ctx.st(V::Leaks);
             let mutable = a & 1 == 1;
-            ctx.both(
-                "into_bump_slice",
-                move || if mutable { vals(s.into_bump_slice_mut()) } else { vals(s.into_bump_slice()) },
-                move || vals(t.leak()),
-            );
-            After::Dead
+            let ls: &'b [P::A] = {
+                let _g = enter_arena(1);
+                if mutable {
+                    let m = s.into_bump_slice_mut();
+                    // write through the exclusive slice (same values), as a caller may
+                    for i in 0..m.len() {
+                        let p: *mut P::A = &mut m[i];
+                        unsafe { std::ptr::write(p, std::ptr::read(p)) };
+                    }
+                    m
+                } else {
+                    s.into_bump_slice()
+                }
+            };
+            let lt: &'static [P::B] = t.leak();
+            if vals(ls) != vals(lt) {
+                ctx.v("C13", format!("into_bump_slice returned {:?} but the vector held {:?}", vals(ls), vals(lt)));
+            }
+            P::leaked(ls, lt)
         }
         24 => {
             ctx.both("drop(vec)", move || drop(s), move || drop(t));
